@@ -153,3 +153,17 @@ Example derivation_example :
   /\ is_valid_address_string_now Symbol sym_mainnet_id (of_string "natne7q5bitmutrrn6ib4i7flsdrdwza34sq33y") = Ok false
   /\ public_key_to_address_now Nem 256 pk = Reject.
 Proof. vm_compute. repeat split. Qed.
+
+(* non-vacuity of the length / well-formedness / alphabet / range premises (base32_roundtrip, base32_roundtrip_any_multiple_of_5,
+   text_shape, b32decode_never_fails_on_alphabet, address_from_text, address_structure*, invalid_on_other_identifier): the derived
+   address and its text above meet them; the premises on the hashes are discharged by hash_premises *)
+Example premises_nonvacuous :
+  let a := of_hex "6826d27e1d0a26ca4e316f901e23e55c8711db20df250def" in
+  let s := of_string "NATNE7Q5BITMUTRRN6IB4I7FLSDRDWZA34SQ33Y" in
+  (length a = 24%nat /\ wf_bytes a = true /\ address_from_string Symbol (address_to_string Symbol a) = Ok a)
+  /\ (length s = 39%nat /\ forallb in_alphabet_spec s = true /\ address_from_string Symbol s = Ok a)
+  /\ (length (a ++ [0]) = (5 * 5)%nat /\ wf_bytes (a ++ [0]) = true /\ b32decode (b32encode (a ++ [0])) = Ok (a ++ [0]))
+  /\ (length (s ++ [65]) = (8 * 5)%nat /\ forallb in_alphabet_spec (s ++ [65]) = true)
+  /\ (0 <= sym_mainnet_id < 256 /\ 0 <= sym_testnet_id < 256 /\ sym_testnet_id <> sym_mainnet_id).
+Proof. vm_compute. repeat split; try reflexivity; discriminate. Qed.
+Print Assumptions premises_nonvacuous.
